@@ -318,10 +318,13 @@ pub fn cases(tier: Tier) -> Vec<Case> {
             }
         }
     }
-    for n in [7usize, 8, 9, 15, 16, 17, 24, 31, 32, 33, 64, 101, 130, 255, 256, 257, 300] {
+    for n in [7usize, 8, 9, 15, 16, 17, 24, 31, 32, 33, 64, 101, 130, 255, 256, 257, 300, 1023, 1024, 1025, 1400, 2100] {
         for rule in 0..5u8 {
             for vset in [0u8, 2] {
                 for grid in 0..6u8 {
+                    if n > 1000 && !(vset == 0 && (grid == 1 || grid == 2)) {
+                        continue;
+                    }
                     out.push(Case::LongCurve { rule, n, vset, grid });
                 }
             }
@@ -363,7 +366,7 @@ pub fn run(ctx: &Ctx, replay_file: Option<String>) -> ! {
          the two node values for linear / log-linear; identical (<= 4 ulp, same interval) for every supply \
          permutation. index_left directly: every non-decreasing list of length 2..9 (11) over {1..5} x every query in \
          {0.5, 1, ..., 5.5}, f64 and i64. Larger sizes on a menu: index_left on [1..len] for every len up to 48 (130) with every \
-         element / mid point as query; curves of 7, 8, 9, 15, 16, 17, 24, 31, 32, 33, 64, 101, 130, 255, 256, 257, 300 nodes in three supply orders on six node grids (uneven, evenly spaced, evenly spaced with displaced interior nodes, dense-then-sparse, sparse-then-dense, uneven starting before 1970); curves of 2 .. 12 nodes whose values are 1e300, 1e-300, 1e150, 1e-150, 1, 5e-324 in turn (value judged to 1e-10 where the closed form itself stays in range, interval always). \
+         element / mid point as query; curves of 7, 8, 9, 15, 16, 17, 24, 31, 32, 33, 64, 101, 130, 255, 256, 257, 300 (and, evenly spaced, 1023, 1024, 1025, 1400, 2100) nodes in three supply orders on six node grids (uneven, evenly spaced, evenly spaced with displaced interior nodes, dense-then-sparse, sparse-then-dense, uneven starting before 1970); curves of 2 .. 12 nodes whose values are 1e300, 1e-300, 1e150, 1e-150, 1, 5e-324 in turn (value judged to 1e-10 where the closed form itself stays in range, interval always). \
          History independence: look-ups on curve A, then on a curve B with the same node count, first and \
          last date but permuted gaps, then A and B again, on one thread. Non-trivial: queries strictly between nodes; \
          lists of length >= 5; interleaved pairs.",
